@@ -135,7 +135,7 @@ FamC06(dummy) ==
                      THEN ItemIds(P, {"and_then"}) ELSE {}) :
             pl \in FailPlans(ItemIds(P, {"and_then"}), IF Tier = "quick" THEN 1 ELSE 2)} :
          P \in {Build(kd, "res", pr, StepC06, NoName, ExprInit, "map") : kd \in TryKinds,
-                  pr \in IF Tier = "quick" THEN {<<2, 2>>, <<1, 3>>, <<3, 1, 2>>, <<2, 3, 3>>} ELSE Profiles(3, 3)}}
+                  pr \in IF Tier = "quick" THEN {<<3>>, <<2, 2>>, <<1, 3>>, <<3, 1, 2>>, <<2, 3, 3>>} ELSE Profiles(3, 3)}}
 FamC06h(dummy) ==
   UNION {{Run(P, pl, {}) : pl \in FailPlans(ItemIds(P, {"and_then"}), 2)} :
          P \in {Build(kd, "res", pr, StepC06, NoName, ExprInit, "map") : kd \in {q \in TryKinds : ~q.spawn}, pr \in {<<2, 2>>, <<1, 3>>, <<3, 1, 2>>}}}
@@ -218,7 +218,7 @@ PlansC10(P) ==
       ri == ItemIds(P, {"or_else", "then"})
       oi == ItemIds(P, {"or"})
   IN  {<<>>} \cup {<<F(x)>> : x \in fi} \cup {pl \in {<<F(x), Rcv(y)>> : x \in fi, y \in ri} : pl[1].id # pl[2].id} \cup {<<F(x), F(y)>> : x \in fi, y \in oi}
-ProfC10 == IF Tier = "quick" THEN {<<1>>, <<2, 1>>, <<1, 2, 2>>} ELSE Profiles(3, 2) \cup {<<3, 1>>, <<1, 3, 2>>}
+ProfC10 == IF Tier = "quick" THEN {<<1>>, <<3>>, <<2, 1>>, <<1, 2, 2>>} ELSE Profiles(3, 2) \cup {<<3, 1>>, <<1, 3, 2>>}
 FamC10(dummy) ==
   UNION {{Run(P, pl, {}) : pl \in PlansC10(P)} :
          P \in {Build(kd, "res", pr, StepC10, NoName, ExprInit, DefaultHandler(kd)) : kd \in SyncKinds, pr \in ProfC10}
@@ -248,7 +248,7 @@ ProgC12(kd, pr, named, mut) ==
 FamC12(dummy) ==
   UNION {{Run(P, pl, {}) : pl \in {<<>>} \cup (IF P.kind.try THEN {} ELSE {<<F(IdOf(0, 0, 1))>>, <<F(IdOf(1, 0, 1))>>})} :
          P \in {ProgC12(kd, pr, named, mut) : kd \in Kinds8, mut \in BOOLEAN,
-                  pr \in IF Tier = "quick" THEN {<<2, 2>>, <<1, 3>>, <<2, 1, 3>>, <<3, 3, 1>>} ELSE {q \in Profiles(3, 3) : \E i \in 1 .. Len(q) : q[i] > 1},
+                  pr \in IF Tier = "quick" THEN {<<3>>, <<2, 2>>, <<1, 3>>, <<2, 1, 3>>, <<3, 3, 1>>} ELSE {q \in Profiles(3, 3) : \E i \in 1 .. Len(q) : q[i] > 1},
                   named \in (SUBSET {0, 1, 2})}}
 
 \* ---- C13: handlers: kind x handler x outcome x position x form; async handler futures gated
@@ -286,7 +286,7 @@ FamC16(dummy) ==
   UNION {{Run([P EXCEPT !.opts = o], pl, {}) : pl \in {<<>>} \cup {<<F(x)>> : x \in ItemIds(P, {"and_then"})},
                                                 o \in {q \in OptsC16(P.kind) : OkOpts(P.kind, q)}} :
          P \in {Build(kd, "res", pr, StepC16, NoName, ExprInit, "none") : kd \in Kinds8,
-                  pr \in IF Tier = "quick" THEN {<<1>>, <<2, 2>>, <<3, 1, 2>>} ELSE {<<1>>, <<2, 2>>, <<3, 1, 2>>, <<1, 3, 2>>, <<2, 3, 3>>}}}
+                  pr \in IF Tier = "quick" THEN {<<1>>, <<2>>, <<2, 2>>, <<3, 1, 2>>} ELSE {<<1>>, <<2>>, <<3>>, <<2, 2>>, <<3, 1, 2>>, <<1, 3, 2>>, <<2, 3, 3>>}}}
 
 \* ---- C18: a panic at every single position of a mixed corpus
 StepC18(b, k) ==
@@ -326,7 +326,7 @@ FamC17(dummy) ==
 FamC05a(dummy) ==
   UNION {{Run(P, pl, ItemIds(P, {"and_then"})) : pl \in FailPlans(ItemIds(P, {"and_then"}), 2)} :
          P \in {ProgC05(Kind(TRUE, TRUE, sp), pr, 0, h, "res") : sp \in BOOLEAN, h \in {"none", "map"},
-                  pr \in IF Tier = "quick" THEN {<<1, 1>>, <<2, 2>>, <<1, 2, 1>>} ELSE {<<1, 1>>, <<2, 2>>, <<1, 2, 1>>, <<2, 2, 2>>, <<1, 3, 2>>}}}
+                  pr \in IF Tier = "quick" THEN {<<2>>, <<1, 1>>, <<2, 2>>, <<1, 2, 1>>} ELSE {<<2>>, <<3>>, <<1, 1>>, <<2, 2>>, <<1, 2, 1>>, <<2, 2, 2>>, <<1, 3, 2>>}}}
 
 Runs(dummy) ==
   TLCEval(CASE Family = "C04" -> FamC04(0)
